@@ -925,4 +925,185 @@ theorem get_hist_shape (cfg : Cfg) (s : CLdb) (i : Id) (hs : s.stopped = false) 
       exact ⟨_, rfl, rfl⟩
     · simp [hh] at hsome
 
+/-! ### whole runs: the cached manager against the cache-free manager -/
+
+/-- one operation of the CACHE-FREE manager (`Ldb` + the stopped flag): evictions do nothing -/
+def stepU (u : Ldb × Bool) : COp → (Ldb × Bool) × CAns
+  | .add prev id ops =>
+    if u.2 then (u, CAns.err)
+    else match u.1.add prev id ops with
+      | none => (u, CAns.err)
+      | some l => ((l, u.2), CAns.ok)
+  | .pop =>
+    if u.2 then (u, CAns.err)
+    else match u.1.pop with
+      | none => (u, CAns.err)
+      | some l => ((l, u.2), CAns.ok)
+  | .get i => (u, CAns.view (if u.2 then none else u.1.get i))
+  | .evict _ _ => (u, CAns.silent)
+  | .stop => ((u.1, true), CAns.silent)
+
+/-- the ghost history after one operation of the cache-free manager -/
+def ghostU (h : List Ver) (u : Ldb × Bool) : COp → List Ver
+  | .add prev id ops =>
+    if u.2 = false ∧ prev = u.1.frontierId ∧ (u.1.add prev id ops).isSome = true then commitVer h id ops :: h else h
+  | .pop => if u.2 = false ∧ u.1.pop.isSome = true then h.tail else h
+  | _ => h
+
+/-- side conditions of a run, stated on the cache-free manager: every commit on the frontier of a running manager has
+    height = frontier height + 1 < 2^64, a hash not on the chain and user keys outside the hash index -/
+def OpOkU (h : List Ver) (u : Ldb × Bool) : COp → Prop
+  | .add prev id ops => u.2 = false → prev = u.1.frontierId → AddOk u.1.frontierId h id ops
+  | _ => True
+
+def ValidU : List Ver → Ldb × Bool → List COp → Prop
+  | _, _, [] => True
+  | h, u, op :: t => OpOkU h u op ∧ ValidU (ghostU h u op) (stepU u op).1 t
+
+def answersU : Ldb × Bool → List COp → List CAns
+  | _, [] => []
+  | u, op :: t => (stepU u op).2 :: answersU (stepU u op).1 t
+
+def answersC (cfg : Cfg) : CLdb → List COp → List CAns
+  | _, [] => []
+  | s, op :: t => (s.step cfg op).2 :: answersC cfg (s.step cfg op).1 t
+
+theorem pop_eq {cfg : Cfg} (hp : cfg.Purges) (s : CLdb) (hs : s.stopped = false) :
+    s.pop cfg = s.ldb.pop.map (fun l => { s with ldb := l, l1 := [], l2 := [] }) := by
+  simp only [CLdb.pop, hs, Bool.false_eq_true, if_false, hp.1, hp.2, if_true]
+  cases s.ldb.pop <;> rfl
+
+/-- one operation: the cached manager answers what the cache-free manager answers on the projection, its new projection is
+    the cache-free manager's new state, and the invariant is kept for the new ghost history -/
+theorem step_sim {cfg : Cfg} (hp : cfg.Purges) {s : CLdb} {h : List Ver} (hi : CInv s h) (op : COp)
+    (hv : OpOkU h (s.ldb, s.stopped) op) :
+    (s.step cfg op).2 = (stepU (s.ldb, s.stopped) op).2 ∧
+    ((s.step cfg op).1.ldb, (s.step cfg op).1.stopped) = (stepU (s.ldb, s.stopped) op).1 ∧
+    CInv (s.step cfg op).1 (ghostU h (s.ldb, s.stopped) op) := by
+  cases op with
+  | add prev id ops =>
+    cases hs : s.stopped with
+    | true => simp [CLdb.step, stepU, ghostU, add_stopped cfg s prev id ops hs, hs, hi]
+    | false =>
+      have heq := hi.add_eq (cfg := cfg) hs prev id ops
+      cases hl : s.ldb.add prev id ops with
+      | none =>
+        rw [hl] at heq
+        simp [CLdb.step, stepU, ghostU, heq, hl, hs, hi]
+      | some l =>
+        rw [hl] at heq
+        simp only [Option.map_some] at heq
+        obtain ⟨_, _, hst, _⟩ := hi.get (cfg := cfg) hs prev
+        have hinv : CInv { (s.get cfg prev).1 with ldb := l } (ghostU h (s.ldb, false) (.add prev id ops)) := by
+          by_cases hpf : prev = s.ldb.frontierId
+          · have hok : AddOk s.ldb.frontierId h id ops := hv hs hpf
+            have hg : ghostU h (s.ldb, false) (.add prev id ops) = commitVer h id ops :: h := by
+              simp [ghostU, hpf, hpf ▸ hl]
+            rw [hg]
+            exact CStep.inv hp hi (CStep.add hok (hpf ▸ heq))
+          · have hg : ghostU h (s.ldb, false) (.add prev id ops) = h := by simp [ghostU, hpf]
+            rw [hg]
+            exact CStep.inv hp hi (CStep.addStale hpf heq)
+        simp only [CLdb.step, heq, stepU, hl, Bool.false_eq_true, if_false]
+        exact ⟨by first | rfl | trivial, by simp [hst], hinv⟩
+  | pop =>
+    cases hs : s.stopped with
+    | true => simp [CLdb.step, stepU, ghostU, CLdb.pop, hs, hi]
+    | false =>
+      have heq := pop_eq hp s hs
+      cases hl : s.ldb.pop with
+      | none =>
+        rw [hl] at heq
+        simp [CLdb.step, stepU, ghostU, heq, hl, hs, hi]
+      | some l =>
+        rw [hl] at heq
+        simp only [Option.map_some] at heq
+        cases h with
+        | nil => rw [hi.inv.inv0.pop_empty] at hl; cases hl
+        | cons v h' =>
+          have hinv := CStep.inv hp hi (CStep.pop heq)
+          simp only [CLdb.step, heq, stepU, hl, Bool.false_eq_true, if_false, ghostU, Option.isSome_some, and_self,
+            if_true, List.tail_cons]
+          exact ⟨by first | rfl | trivial, by simp [hs], hinv⟩
+  | get i =>
+    cases hs : s.stopped with
+    | true => simp [CLdb.step, stepU, ghostU, get_stopped cfg s i hs, hs, hi]
+    | false =>
+      obtain ⟨hinv, hldb, hst, hans, _⟩ := hi.get (cfg := cfg) hs i
+      simp only [CLdb.step, stepU, ghostU, Bool.false_eq_true, if_false]
+      exact ⟨by rw [hans], by rw [hldb, hst], hinv⟩
+  | evict l i =>
+    refine ⟨rfl, ?_, hi.evict l i⟩
+    cases l <;> rfl
+  | stop => exact ⟨rfl, rfl, hi.stop⟩
+
+/-- whole runs: from an invariant state, every operation of every valid run gets the same answer from the cached manager
+    as from the cache-free manager -/
+theorem answersC_eq_answersU {cfg : Cfg} (hp : cfg.Purges) (ops : List COp) :
+    ∀ {s : CLdb} {h : List Ver}, CInv s h → ValidU h (s.ldb, s.stopped) ops →
+      answersC cfg s ops = answersU (s.ldb, s.stopped) ops := by
+  induction ops with
+  | nil => intro s h _ _; rfl
+  | cons op t ih =>
+    intro s h hi hv
+    obtain ⟨ha, hproj, hinv⟩ := step_sim hp hi op hv.1
+    simp only [answersC, answersU]
+    rw [ha, ih hinv (by rw [hproj]; exact hv.2), hproj]
+
+/-- a run with its evictions left out -/
+def dropEvicts (ops : List COp) : List COp :=
+  ops.filter (fun op => match op with | .evict _ _ => false | _ => true)
+
+/-- the answers that say something (evictions and `Stop` are silent) -/
+def loud (as : List CAns) : List CAns :=
+  as.filter (fun a => match a with | .silent => false | _ => true)
+
+theorem validU_dropEvicts (ops : List COp) : ∀ (h : List Ver) (u : Ldb × Bool),
+    ValidU h u ops ↔ ValidU h u (dropEvicts ops) := by
+  induction ops with
+  | nil => intro h u; exact Iff.rfl
+  | cons op t ih =>
+    intro h u
+    cases op with
+    | evict l i =>
+      have : dropEvicts (COp.evict l i :: t) = dropEvicts t := by simp [dropEvicts]
+      rw [this, ← ih]
+      simp [ValidU, OpOkU, ghostU, stepU]
+    | add prev id ops =>
+      have : dropEvicts (COp.add prev id ops :: t) = COp.add prev id ops :: dropEvicts t := by simp [dropEvicts]
+      rw [this]; simp only [ValidU]; rw [ih]
+    | pop =>
+      have : dropEvicts (COp.pop :: t) = COp.pop :: dropEvicts t := by simp [dropEvicts]
+      rw [this]; simp only [ValidU]; rw [ih]
+    | get i =>
+      have : dropEvicts (COp.get i :: t) = COp.get i :: dropEvicts t := by simp [dropEvicts]
+      rw [this]; simp only [ValidU]; rw [ih]
+    | stop =>
+      have : dropEvicts (COp.stop :: t) = COp.stop :: dropEvicts t := by simp [dropEvicts]
+      rw [this]; simp only [ValidU]; rw [ih]
+
+theorem answersU_dropEvicts (ops : List COp) : ∀ (u : Ldb × Bool),
+    loud (answersU u ops) = loud (answersU u (dropEvicts ops)) := by
+  induction ops with
+  | nil => intro u; rfl
+  | cons op t ih =>
+    intro u
+    cases op with
+    | evict l i =>
+      have : dropEvicts (COp.evict l i :: t) = dropEvicts t := by simp [dropEvicts]
+      rw [this, ← ih]
+      simp [answersU, stepU, loud]
+    | add prev id ops =>
+      have : dropEvicts (COp.add prev id ops :: t) = COp.add prev id ops :: dropEvicts t := by simp [dropEvicts]
+      rw [this]; simp only [answersU, loud, List.filter_cons]; rw [← loud, ← loud, ih]
+    | pop =>
+      have : dropEvicts (COp.pop :: t) = COp.pop :: dropEvicts t := by simp [dropEvicts]
+      rw [this]; simp only [answersU, loud, List.filter_cons]; rw [← loud, ← loud, ih]
+    | get i =>
+      have : dropEvicts (COp.get i :: t) = COp.get i :: dropEvicts t := by simp [dropEvicts]
+      rw [this]; simp only [answersU, loud, List.filter_cons]; rw [← loud, ← loud, ih]
+    | stop =>
+      have : dropEvicts (COp.stop :: t) = COp.stop :: dropEvicts t := by simp [dropEvicts]
+      rw [this]; simp only [answersU, loud, List.filter_cons]; rw [← loud, ← loud, ih]
+
 end ZV.VersionedCache
